@@ -5,6 +5,13 @@ from vlib import core
 PROP = "C20"
 LEAN_MODULES = ["ShootVerif.Props.C20"]
 USES_FACTS = False
+DRIVER = "shootmodel_rt"
+
+MANIFEST = dict(
+    text="Lean 4 theorems over a model of the retry loop (all n, all infinite outcome scripts): model = spec, bound n+1, stop at first acceptable, exhaustion returns the last response and error, trace = call (sleep call)*. Model tied to middleware/retry.go by running the real middleware in-process on every script of length n+1 over six outcome classes for n = 0..5 (exhaustive) plus timing and random legs.",
+    note="Lean kernel + standard axioms; the correspondence (harness cmd/rt + Lean driver) ties the model to the code; time.Sleep lower bound assumed.",
+    technique="Lean 4 proof (induction over the loop) + exhaustive model/implementation correspondence",
+    design="5/C20")
 
 ALPHA = ["e", "er502", "r200", "r302", "r404", "r503"]
 EDGE = ["r499", "r500", "r501", "r100", "r599", "er200", "er499", "r0", "r999"]
@@ -94,7 +101,7 @@ def run(ctx, obl):
 
 def replay(ctx, payload):
     import json
-    core.lean_build(LEAN_MODULES + ["shootmodel"])
+    core.lean_build(LEAN_MODULES + [DRIVER])
     case = payload.get("case")
     if not case:
         print(json.dumps(payload, indent=1))
